@@ -5,7 +5,7 @@ import tempfile
 import z3
 
 CVC5 = '/usr/bin/cvc5'
-CVC5_TIMEOUT_S = 60
+CVC5_TIMEOUT_S = 30
 
 
 def cvc5_check(pc, negated_goal):
